@@ -1,5 +1,6 @@
 """C13 (engine CONS) - see RULE."""
 from vlib.engines import cons
+from vlib import tracefuzz
 from vlib.engines.base import drive, run_trace
 
 PROP = "C13"
@@ -16,13 +17,15 @@ class Eng(cons.CONSEngine):
 
 def shard(ctx):
     drive(ctx, Eng, ctx.n(16 * 250, 16 * 4000), min_steps=6, max_steps=70, props={"C13"})
+    # coverage-guided trace search (atheris driving the same Hypothesis driver, fuzz/traces.py)
+    tracefuzz.run(ctx, "c13", 120 if ctx.tier == "quick" else 6000, nshards=2 if ctx.tier == "quick" else 4)
 
 
 def replay(case, ctx):
     run_trace(Eng, case, ctx, props={"C13"})
 
 
-TECHNIQUE = "stateful property-based testing of the real Consumer + KafkaClient + codec on a simulated stateful cluster (virtual clock, harness-owned schedule) with a scripted processor (sync / async / raising / stopping / committing inside); Hypothesis draws logs, start positions, scheduler choices, faults, stop/shutdown/crash points; oracles quote the partition log, the coordinator's offset store and the request stream; ddmin-shrunk JSON traces"
+TECHNIQUE = "stateful property-based testing of the real Consumer + KafkaClient + codec on a simulated stateful cluster (virtual clock, harness-owned schedule) with a scripted processor (sync / async / raising / stopping / committing inside); Hypothesis draws logs, start positions, scheduler choices, faults, stop/shutdown/crash points; oracles quote the partition log, the coordinator's offset store and the request stream; ddmin-shrunk JSON traces; plus coverage-guided fuzzing of the same trace driver (atheris/libFuzzer mutating Hypothesis' choice sequence; fuzz/traces.py)"
 RULE = (
     "traces over one Consumer (buffer 64..1 MiB+1, optional maximum, retry delays 0.05..30 s, attempt limit 0..5, reset policy none/earliest/latest, auto-commit every n / every ms, with or without a group) on a 1-2 broker simulated cluster; the log holds plain and gzip-wrapper batches in message format 0 or 1 with compaction gaps, null values and messages larger than the buffer, and is appended to / head-truncated while the consumer runs; steps: start (numeric / earliest / latest / committed), deliver or hold a reply, fire a timer, complete an async processor call (ok / fail), commit, stop, shutdown, crash (drop the consumer object and client, keep the cluster), error codes on fetch / offsets / commit / coordinator lookup, connection drops, broker down/up, leader and coordinator moves. oracle: after stop() returns (from any state incl. from inside the processor): no processor invocation, no fetch/offset/commit request issued by that run, no afkak timer left when the client is otherwise idle; the start() Deferred fires exactly once (instrumented: extra firing attempts counted) - by stop with the value stop returned = last processed offset, or with a failure for an unrecoverable error - never while the run continues; stop/start/shutdown never raise when legal; shutdown's Deferred fires exactly once, not before the in-progress processor call ends, and on success with a group the offset store holds the last processed offset; a stopped consumer starts again. non-trivial = stop or shutdown with a processor call pending, a commit in flight, a reply parked behind processing, a retry timer waiting, or from inside the processor; distinct = distinct trace."
 )
